@@ -15,7 +15,8 @@ def setDirtyFlag (dirty : Bool) : Prog Unit := do
   else do
     let off := if fs.fatType == .fat32 then 0x41 else 0x25
     let _ ← Prog.seekStart off
-    let _ ← writeU8 devStrm () (encodeStatus flagsDirty flagsIo)
+    -- `flags.encode() | (self.bpb.reserved_1 & !0x03)`
+    let _ ← writeU8 devStrm () (encodeStatus flagsDirty flagsIo ||| (fs.statusRaw / 4 * 4))
     Prog.modifyFs fun fs => { fs with curDirty := flagsDirty, curIoErr := flagsIo }
 
 /-- `FsIoAdapter`: the device as seen through a mounted file system -/
